@@ -481,3 +481,53 @@ Proof.
   replace (elem_typecheck IF [c; t; f]) with (Some true) by (simpl in *; rewrite Kc, Kt, Kf; reflexivity).
   rewrite SH. reflexivity.
 Qed.
+(* ------------------------------------------------ scalar operator forms *)
+
+Lemma scalar_binop_dispatch o same ea eb k :
+  operands_ok o k (VE ea) (VE eb) = true ->
+  is_builtin (class_of (VE ea)) && is_builtin (class_of (VE eb)) = false ->
+  py_binop o same (VE ea) (VE eb) = Ok (VE (mk_node (node_op o k) [ea; eb])) \/
+  (is_compare o = true /\
+   py_binop o same (VE ea) (VE eb) = Ok (VE (mk_node (node_op (swap_op o) k) [eb; ea]))).
+Proof.
+  intros OK NB.
+  destruct o, k; try discriminate OK;
+  destruct ea; try discriminate OK; destruct eb; try discriminate OK; try discriminate NB;
+  first [ left; reflexivity | right; split; reflexivity ].
+Qed.
+
+Theorem scalar_binop_sem o same ea eb k :
+  operands_ok o k (VE ea) (VE eb) = true ->
+  is_builtin (class_of (VE ea)) && is_builtin (class_of (VE eb)) = false ->
+  exists e, py_binop o same (VE ea) (VE eb) = Ok (VE e) /\
+    forall en, eval no_graph en e = pyop_sem o k (eval no_graph en ea) (eval no_graph en eb).
+Proof.
+  intros OK NB. pose proof (operands_ok_kind _ _ _ _ OK) as KO.
+  assert (AR : forall o', arity_ok (node_op o' k) 2 = true) by (intros o'; destruct o', k; reflexivity).
+  destruct (scalar_binop_dispatch o same ea eb k OK NB) as [E|[IC E]]; rewrite E; eexists; split; try reflexivity; intros en.
+  - rewrite eval_mk_node, eval_node_op_sem by apply AR. apply node_op_sem; exact KO.
+  - rewrite eval_mk_node, eval_node_op_sem by apply AR. apply node_op_sem_swapped; assumption.
+Qed.
+
+Theorem scalar_then_sem ex ey :
+  has_kind KB (VE ex) && has_kind KB (VE ey) = true ->
+  fn_then (VE ex) (VE ey) = Ok (VE (BNode IMP [ex; ey])) /\
+  forall en, eval no_graph en (BNode IMP [ex; ey]) = then_sem (eval no_graph en ex) (eval no_graph en ey).
+Proof.
+  intros K. split.
+  - destruct ex; try discriminate K; destruct ey; try discriminate K; reflexivity.
+  - intros en. change (BNode IMP [ex; ey]) with (mk_node IMP [ex; ey]).
+    rewrite eval_mk_node, eval_node_op_sem by reflexivity. reflexivity.
+Qed.
+
+Theorem scalar_cond_sem ec et ef :
+  has_kind KB (VE ec) && has_kind KI (VE et) && has_kind KI (VE ef) = true ->
+  fn_cond (VE ec) (VE et) (VE ef) = Ok (VE (INode IF [ec; et; ef])) /\
+  forall en, eval no_graph en (INode IF [ec; et; ef]) =
+             cond_sem (eval no_graph en ec) (eval no_graph en et) (eval no_graph en ef).
+Proof.
+  intros K. split.
+  - destruct ec; try discriminate K; destruct et; try discriminate K; destruct ef; try discriminate K; reflexivity.
+  - intros en. change (INode IF [ec; et; ef]) with (mk_node IF [ec; et; ef]).
+    rewrite eval_mk_node, eval_node_op_sem by reflexivity. reflexivity.
+Qed.
